@@ -42,7 +42,7 @@ Rets    == {"comp", "fact"}
 Cfgs    == {"none", "struct", "ptr"}
 Forms   == {"New", "FactoryErr", "FactoryNoErr"}
 Fails   == {"none", "ctor", "conf", "prod"}
-Nesteds == {"none", "one", "list"}
+Nesteds == {"none", "one", "list", "list0"}     \* list0: a plugin list of length 0 (`s: []` -> a composite of nothing)
 Shapes  == {"viper", "yaml"}
 Regs    == {"synth", "real"}
 Users   == {"set", "empty"}               \* the user's settings: some options | only the plugin `type`
@@ -72,13 +72,15 @@ ValidSynth(c) ==
     /\ (c.dv # "valid" => c.dflt /\ c.nested = "none" /\ c.fail = "none" /\ ~c.mutate)
     /\ (c.user = "empty" /\ c.cfg # "none" => c.nested = "none" /\ c.fail # "conf" /\ ~c.mutate)
     /\ (InvalidConf(c) => c.fail = "none")
+    \* an empty plugin list: the interesting part is that decoding and construction go through (no failure injection)
+    /\ (c.nested = "list0" => c.fail = "none" /\ ~c.mutate /\ ~c.impl)
 
 \* the real registry: `rps` of a pool (a func() (core.Schedule, error) field) given as a list (-> composite of
 \* real `once` schedules) or as an explicit composite; schedule constructors take a struct, return core.Schedule
 ValidReal(c) ==
     /\ c.reg = "real" /\ c.cfg = "struct" /\ ~c.cerr /\ ~c.ferr /\ ~c.impl
     /\ c.fail = "none" /\ c.failAt = 1 /\ ~c.mutate
-    /\ \/ /\ c.ret = "comp" /\ ~c.dflt /\ c.form = "FactoryErr" /\ c.nested \in {"one", "list"} /\ c.user = "set" /\ c.dv = "valid"
+    /\ \/ /\ c.ret = "comp" /\ ~c.dflt /\ c.form = "FactoryErr" /\ c.nested \in {"one", "list", "list0"} /\ c.user = "set" /\ c.dv = "valid"
        \* sections holding only `type`, real entries: startup {type: once} (times 0 violates min=1), rps {type: const}
        \* (duration 0 violates min-time), gun {type: http} (factory constructor, default config without the required target)
        \/ /\ c.ret = "comp" /\ ~c.dflt /\ c.form \in {"New", "FactoryErr"} /\ c.nested = "none" /\ c.user = "empty" /\ c.dv = "valid"
@@ -97,7 +99,9 @@ UserR == "ur"       \* user sets r: "ur" (required; valid default "r")
 UserM == 2          \* user sets m: 2   (min=1; valid default 1)
 MutA  == 99         \* what the driver writes into product k's config before asking for product k+1
 
-NestedCount(c) == CASE c.nested = "none" -> 0 [] c.nested = "one" -> 1 [] c.nested = "list" -> 2
+NestedCount(c) == CASE c.nested \in {"none", "list0"} -> 0 [] c.nested = "one" -> 1 [] c.nested = "list" -> 2
+\* the user's map holds nested plugin MAPS (with their own `type` keys)
+HasNestedMaps(c) == c.nested \in {"one", "list"}
 
 NoProd == [out |-> "none", perr |-> FALSE, a |-> 0, b |-> "", c |-> "", r |-> "", m |-> 0, n |-> 0, fresh |-> FALSE]
 Failed(out, perr) == [NoProd EXCEPT !.out = out, !.perr = perr]
@@ -131,9 +135,9 @@ St0 == [created |-> "none",
 GetConf(c, st) ==
     LET typeonly == c.user = "empty" /\ ~ValidateDefaults      \* nil fillConf: nothing decoded, nothing validated
         ok == /\ c.fail # "conf"
-              /\ (c.nested # "none" => st.nested_type)
+              /\ (HasNestedMaps(c) => st.nested_type)
               /\ (typeonly \/ ConfValid(c))
-        eats == c.nested # "none" /\ c.shape = "viper" /\ ~CopyMap   \* parseConf deletes `type` from the caller's nested map
+        eats == HasNestedMaps(c) /\ c.shape = "viper" /\ ~CopyMap   \* parseConf deletes `type` from the caller's nested map
     IN <<[st EXCEPT !.nd = IF c.user = "set" THEN @ + 1 ELSE @,      \* (observed through a field the user's settings carry)
                     !.ndflt = IF c.dflt /\ UseDefault THEN @ + 1 ELSE @,
                     !.nested_type = IF eats THEN FALSE ELSE @], ok>>
